@@ -340,15 +340,16 @@ func checkC07(c c07Case) string {
 	if err != nil {
 		return fmt.Sprintf("Write(%s) failed: %v", filepath.Base(dstPath), err)
 	}
-	back, err := astisub.OpenFile(dstPath)
-	if err != nil {
-		return fmt.Sprintf("the %s file written from a %s source cannot be read back: %v", c.DstExt, c.Src, err)
-	}
+	// precondition: the text must be representable in the destination
 	for _, e := range exp {
 		if !representable(dstFmt, e.Text) {
 			ev.Excluded("text-not-representable-in-" + dstFmt)
 			return ""
 		}
+	}
+	back, err := astisub.OpenFile(dstPath)
+	if err != nil {
+		return fmt.Sprintf("the %s file written from a %s source cannot be read back: %v", c.DstExt, c.Src, err)
 	}
 	got := simpleCues(back)
 	ctx := func() string {
